@@ -173,6 +173,8 @@ def write_frame_obligations(repo, tabs, roots, allowed, label):
     for key in sorted(reach):
         for w in frames.writes_of(repo, key):
             ok = w.cls == "fresh" or any(key == u and (w.receiver == r or r == "*") for u, r in allowed)
+            if key.endswith(".__init__") and w.cls == "self":
+                ok = True       # the object under construction is fresh for its constructor
             recs.append({"name": "%s/W/%s:%s@%d" % (key, w.what, w.receiver, w.line), "kind": "W",
                          "status": "discharged" if ok else "failed", "solver": "frames",
                          "note": "%s: write to %s receiver %s (%s)" % (label, w.cls, w.receiver, w.what)})
@@ -191,6 +193,8 @@ VALIDATION_WRITES = [
     ("validators:create.Validator.descend", "error.schema_path"), ("exceptions:_Error._set", "self"),
     ("validators:RefResolver.push_scope", "self._scopes_stack"), ("validators:RefResolver.pop_scope", "self._scopes_stack"),
     ("validators:RefResolver.resolve_remote", "self.store.[]"), ("_utils:URIDict.__setitem__", "self.store.[]"),
+    # pyrsistent.pmap.update / .remove are persistent operations returning a new map (assumed contract, DESIGN.md section 5)
+    ("_types:TypeChecker.redefine_many", "self._type_checkers"), ("_types:TypeChecker.remove", "checkers"),
 ]
 
 
@@ -263,6 +267,148 @@ class C06(Spec):
         return out
 
 
+def generator_discipline_obligations(repo, tabs, reach):
+    from pyvc import frames
+    gens = [k for k in reach if repo.units[k].is_generator] + [k for k in repo.units if k.startswith("validators:create.Validator.") and repo.units[k].is_generator]
+    gens = sorted(set(gens) | {"validators:create.Validator.iter_errors", "validators:create.Validator.descend"})
+    recs = []
+    for key in sorted(set(reach) | {"validators:validate", "validators:create.Validator.check_schema"}):
+        if key not in repo.units:
+            continue
+        probs = frames.generator_discipline(repo, key, gens)
+        recs.append({"name": "%s/G/generator-discipline" % key, "kind": "W", "status": "discharged" if not probs else "failed", "solver": "frames",
+                     "note": "generators are consumed where they are created; none is held in a local across a raise" + ("; ".join([""] + probs))})
+    return recs
+
+
+OWNED = {"validators:RefResolver.__init__": {"_scopes_stack": "fresh", "store": "fresh", "handlers": "fresh",
+                                              "_urljoin_cache": "local:urljoin_cache", "_remote_cache": "local:remote_cache",
+                                              "referrer": "param:referrer", "cache_remote": "param:cache_remote"}}
+
+
+def ownership_obligations(repo):
+    """C18 / C07: the state a resolver mutates during validation is allocated by its own constructor"""
+    from pyvc import frames
+    import ast as _ast
+    recs = []
+    for key, want in OWNED.items():
+        got = {a: (c, ln) for a, v, c, ln in frames.init_assignments(repo, key)}
+        for attr, cls in want.items():
+            have = got.get(attr, ("missing", 0))[0]
+            ok = have == cls or (cls.startswith("local:") and have in (cls, "param:" + cls.split(":")[1]))
+            recs.append({"name": "%s/O/%s" % (key, attr), "kind": "W", "status": "discharged" if ok else "failed", "solver": "frames",
+                         "note": "self.%s is assigned from %s (expected %s)" % (attr, have, cls)})
+        for attr, (c, ln) in got.items():
+            if attr not in want:
+                ok = c == "fresh" or c.startswith("param:")
+                recs.append({"name": "%s/O/%s" % (key, attr), "kind": "W", "status": "discharged" if ok else "failed", "solver": "frames",
+                             "note": "self.%s (not in the side-car list) is assigned from %s" % (attr, c)})
+        # caller-supplied caches default to fresh per-instance wrappers
+        fn = repo.units[key].node
+        for cache in ("urljoin_cache", "remote_cache"):
+            ok = False
+            for n in _ast.walk(fn):
+                if isinstance(n, _ast.If) and isinstance(n.test, _ast.Compare) and isinstance(n.test.left, _ast.Name) and n.test.left.id == cache \
+                        and isinstance(n.test.ops[0], _ast.Is) and len(n.body) == 1 and isinstance(n.body[0], _ast.Assign) \
+                        and frames._is_wrapping_call(n.body[0].value):
+                    ok = True
+            recs.append({"name": "%s/O/default-%s" % (key, cache), "kind": "W", "status": "discharged" if ok else "failed", "solver": "frames",
+                         "note": "%s defaults to a new lru_cache wrapper created in the constructor" % cache})
+    # Validator.__init__: without an explicit resolver a new one is constructed
+    vk = "validators:create.Validator.__init__"
+    fn = repo.units[vk].node
+    ok = False
+    for n in _ast.walk(fn):
+        if isinstance(n, _ast.If) and isinstance(n.test, _ast.Compare) and isinstance(n.test.left, _ast.Name) and n.test.left.id == "resolver" \
+                and isinstance(n.test.ops[0], _ast.Is):
+            for b in n.body:
+                if isinstance(b, _ast.Assign) and isinstance(b.value, _ast.Call) and isinstance(b.value.func, _ast.Attribute) \
+                        and b.value.func.attr == "from_schema" and isinstance(b.value.func.value, _ast.Name) and b.value.func.value.id == "RefResolver":
+                    ok = True
+    recs.append({"name": "%s/O/own-resolver" % vk, "kind": "W", "status": "discharged" if ok else "failed", "solver": "frames",
+                 "note": "a validator constructed without a resolver gets RefResolver.from_schema(...): a new object"})
+    fk = "validators:RefResolver.from_schema"
+    fn = repo.units[fk].node
+    ok = any(isinstance(n, _ast.Return) and isinstance(n.value, _ast.Call) and isinstance(n.value.func, _ast.Name) and n.value.func.id == "cls"
+             for n in _ast.walk(fn))
+    recs.append({"name": "%s/O/constructs" % fk, "kind": "W", "status": "discharged" if ok else "failed", "solver": "frames",
+                 "note": "from_schema returns cls(...): a newly constructed resolver"})
+    return recs
+
+
+HIST_QUICK = {"maxlen": 3, "sample": 60, "limit": 3, "configs": [[True, "default"]]}
+HIST_THOROUGH = {"maxlen": 3, "sample": 600, "limit": 3, "configs": [[True, "default"], [False, "default"], [True, "passthrough"]]}
+
+
+def history_standin(root, tier, seed=0, configs=None):
+    from pyvc import driver
+    job = dict(HIST_THOROUGH if tier == "thorough" else HIST_QUICK, cmd="search", root=root, seed=seed)
+    if configs:
+        job["configs"] = configs
+    r = driver.rt_call("pyvc.rt_hist", job, root, timeout=3000)
+    return {"name": "histories-vs-fresh-validator", "scope": "operation histories of length <= 2 exhaustively and %d sampled of length 3 over 9 operations x 3 template schemas (nested ids, remote refs through a handler, abandoned generators under ids) x 4 drafts x configs %s" % (job["sample"], job["configs"]),
+            "cases": r["tried"], "failures": r["failures"], "replay_kind": "hist", "label": "bounded (not counted as proof)"}
+
+
+class C07(Spec):
+    pid = "C07"
+    level = "proof"
+    design_ref = "DESIGN.md section 8 C07"
+    trusted = [
+        "meta-lemma (paper): generators that are locally balanced on every exit (normal, exception, GeneratorExit) and are finalised promptly (CPython reference counting; generator-discipline obligation) leave the scope stack as it was whenever no iterator of the validator is suspended; pops are anonymous, so finalisation order does not matter",
+        "functools.lru_cache: a call that raises stores nothing (assumed contract)",
+        "frame analysis is syntactic and conservative (pyvc/frames.py)",
+    ]
+    assumptions = ["re-entering a validator while one of its own iterators is suspended is not claimed (property text)",
+                   "coherence of the resolver's caches with its store across histories (DESIGN.md C07 (c)) is covered by the bounded history stand-in only until the resolver functions are under contract (C15)"]
+    explanation = "Exit-path obligations: on every exit of iter_errors, of the $ref keyword function and of the resolver's context managers - exhaustion, an exception from any callee, an exception from urljoin before the push, GeneratorExit at the yield - pushes equal pops and no prefix pops more than it pushed. Write frames: validation code writes only to errors/lists it created, the resolver's scope stack and (resolve_remote) store. Generator discipline keeps finalisation prompt."
+
+    def tasks(self, root, tier):
+        return (tasks_core.core_tasks(root, _tmo(tier), which=("iter_errors_x", "ref_x", "is_valid", "validate")) +
+                [tasks_core.CoreTask(root, 7, "scope_cm_x", _tmo(tier))])
+
+    def select(self, ob, r):
+        return ob["kind"] in ("X", "P", "S")
+
+    def failure_kinds(self):
+        return ("H",)
+
+    def table_obligations(self, repo, tabs):
+        w, reach = write_frame_obligations(repo, tabs, VALIDATION_ROOTS, VALIDATION_WRITES, "validation")
+        return w + generator_discipline_obligations(repo, tabs, reach) + ownership_obligations(repo)
+
+    def standins(self, root, tier):
+        return [history_standin(root, tier)]
+
+
+class C18(Spec):
+    pid = "C18"
+    level = "other"
+    design_ref = "DESIGN.md section 8 C18"
+    trusted = [
+        "meta-lemma (paper, standard non-interference): computations whose write footprints are pairwise disjoint and which read nothing another writes commute step by step; hence every interleaving of next() steps gives each validator what it gives alone",
+        "for thread schedules additionally: CPython's shared read-only structures and the dependencies' own transparent caches (re, urllib.parse) are schedule-safe (assumed)",
+        "frame analysis is syntactic and conservative (pyvc/frames.py)",
+    ]
+    assumptions = ["thread schedules as such are not explored: not applicable to contract-based deductive verification (Kani/Verus-style frameworks have no model of Python threads either); the frame condition is sufficient, not necessary"]
+    explanation = "Sufficient frame condition, proved syntactically on the current tree: every mutation site reachable from validation and from the constructors has a receiver that is fresh in its function, an error owned by the iteration, or a field of the validator's own resolver; the resolver's mutable state (scope stack, store, handler copy, both caches) is allocated in its constructor; a validator without explicit resolver constructs its own; no reachable function writes a module global, class attribute or closure variable. The step to 'any interleaving' is the paper non-interference lemma; the bounded interleaving run on the real code is a cross-check."
+
+    def table_obligations(self, repo, tabs):
+        roots = VALIDATION_ROOTS + ["validators:create.Validator.__init__", "validators:RefResolver.__init__", "validators:RefResolver.from_schema",
+                                    "validators:RefResolver.resolve", "validators:RefResolver.resolve_from_url", "validators:RefResolver.resolve_remote",
+                                    "validators:RefResolver.resolve_fragment"]
+        allowed = VALIDATION_WRITES + [("validators:RefResolver.__init__", "self.store"), ("validators:RefResolver.__init__", "self.store.[]"),
+                                       ("_utils:URIDict.__init__", "self.store"), ("validators:create.Validator.__init__", "self")]
+        w, reach = write_frame_obligations(repo, tabs, roots, allowed, "validation+construction")
+        return w + ownership_obligations(repo)
+
+    def standins(self, root, tier):
+        from pyvc import driver
+        r = driver.rt_call("pyvc.rt_hist", {"cmd": "interleave", "root": root, "schedules": 200 if tier == "thorough" else 40}, root, timeout=3000)
+        return [{"name": "interleavings", "scope": "two validators with own resolvers, same base URI, same $ref strings designating different definitions, same instance object; %d random next()-schedules per case, drafts 4 and 7" % (200 if tier == "thorough" else 40),
+                 "cases": r["tried"], "failures": r["failures"], "replay_kind": "hist", "label": "bounded (not counted as proof)"}]
+
+
 class C08(Spec):
     pid = "C08"
     level = "proof"
@@ -295,4 +441,4 @@ class C08(Spec):
         return out
 
 
-SPECS = {"C01": C01, "C03": C03, "C05": C05, "C06": C06, "C08": C08, "C09": C09, "C10": C10}
+SPECS = {"C01": C01, "C03": C03, "C05": C05, "C07": C07, "C18": C18, "C06": C06, "C08": C08, "C09": C09, "C10": C10}
